@@ -12,9 +12,12 @@ import pgen  # noqa: E402  (worker `parser` owns pgen.py; read-only use)
 
 ID = 'C10'
 GEN_FILES = ['T_fmtspaces', 'T_pins_parser', 'T_pins_luawriter', 'T_parser', 'T_lexer', 'T_pins_lexer', 'T_luanames', 'T_minifier',
-             'T_minifier_p8', 'T_minwiring_lua', 'T_minwiring_tool', 'T_minwiring_build']
+             'T_minifier_p8', 'T_minwiring_lua', 'T_minwiring_tool', 'T_minwiring_build',
+             # source pins of the hand-modelled modules (gen/kernels_pins.py)
+             'T_pins_tool']
 COQ_PROPERTY = 'theories/Properties/C10.vo'
-COQ_EXTRA = ['theories/Proofs/ParserPins.vo', 'theories/Proofs/AstWriterPins.vo', 'theories/Proofs/LexerPins.vo']
+COQ_EXTRA = ['theories/Proofs/ParserPins.vo', 'theories/Proofs/AstWriterPins.vo', 'theories/Proofs/LexerPins.vo',
+             'theories/Proofs/ToolPins.vo']
 MODEL = ('ExC10', 'c10_main.ml')
 MONITOR = ('MonC10', 'c10_mon_main.ml')
 ALPHABET = b' \t\n\r-/a'
